@@ -55,13 +55,13 @@ class Ctx:
         self.notes.append(s)
 
     # ---------------------------------------------------------------- common rule helpers
-    def guarded(self, rule, instance, site, pred, desc, start=0):
+    def guarded(self, rule, instance, site, pred, desc, start=0, correlate=None):
         """Every path from entry to `site` passes an edge whose switch (cond, label) satisfies
         pred(cond_expr, rendered, label)."""
         body = site.body
         self.bodies.add(body.npath)
         edges = body.guard_edges(pred)
-        ok = bool(edges) and body.must_pass_edges(site.bb, edges, start)
+        ok = bool(edges) and body.must_pass_edges(site.bb, edges, start, correlate)
         self.ob(rule, instance, ok, site.loc(),
                 ("guard present on all paths: " if ok else "a path reaches this site without the guard: ") + desc)
         return ok
